@@ -84,6 +84,7 @@ type Exec struct {
 	atomicPtr           map[string]Value
 	lastNow             *Term
 	guards              []guardEntry
+	ufMemo              map[string][]*Term
 	epoch               int
 	pending             *abortSig
 	preempt, maxPreempt int
@@ -1073,7 +1074,14 @@ func (x *Exec) doNext(fr *Frame, in *ssa.Next) {
 		idx := si.Pos
 		si.Pos++
 		var r *Term
-		if x.branch(tLt(b, mkInt(128))) {
+		if b.IsConc() && b.C.(int64) >= 1000 {
+			// opaque encoder token (decimal digits, base64 text, ...): some printable non-blank ASCII character
+			r = x.fresh("tokrune", SInt)
+			if !r.IsConc() {
+				x.sol.Assert(tLe(mkInt(0x21), r))
+				x.sol.Assert(tLe(r, mkInt(0x7E)))
+			}
+		} else if x.branch(tLt(b, mkInt(128))) {
 			r = b
 		} else {
 			// non-ASCII lead byte: the decoded rune is >= 0x80 (RuneError or a multi-byte rune);
@@ -1445,7 +1453,7 @@ func (x *Exec) unop(fr *Frame, in *ssa.UnOp) Value {
 		return tNot(v.(*Term))
 	case token.SUB:
 		t := v.(*Term)
-		if t.S == SFloat {
+		if t.S == SFloat || t.S == SFInt {
 			return fneg(t)
 		}
 		return x.fit(tSub(mkInt(0), t), in.Type())
